@@ -156,7 +156,7 @@ def check_option(scn_base, key, dflt, dom, o, violations, stats):
         if not res.startswith("ok:") or not (raws[0] == exp[1] and type(raws[0]) == type(exp[1])):
             bad = f"expected the value {exp[1]!r}"
     elif exp[0] == "missing":
-        want = f"err:key({core.key_text(core.parse_key(exp[1]))}):T"
+        want = core.canon_names(f"err:key({core.key_text(core.parse_key(exp[1]))}):T")
         if res != want:
             bad = f"expected a missing-key error naming {exp[1]}"
     elif exp[0] == "domain":
@@ -323,7 +323,7 @@ def set_checks(ctx, violations):
                 # correspondence with Base.set_dotted + mix
                 vj = core.lit(v) if isinstance(v, str) else v
                 coq_cases.append((f"match set_dotted {core.coq_key(key)} {core.coq_json(vj)} [] with "
-                                  f"Some d => show_json (JObj (mix {core.coq_dict(o)} d)) | None => \"typeerror\" end", core.show(new)))
+                                  f"Some d => show_json (JObj (mix {core.coq_dict(o)} d)) | None => \"typeerror\" end", core.canon_names(core.show(new))))
     return n, coq_cases
 
 
